@@ -182,7 +182,7 @@ Failed(g, req, r) ==
     \cup (IF FeesPaid(g, r) THEN {}
           ELSE IF FeesPaidButForLastHopRaise(g, req, r) THEN {"FeesPaid_LastHopRaiseNotCharged"}
           ELSE {"FeesPaid"})
-    \cup (IF FeesPaid(g, r) /\ ~HtlcMaxAndCapacity(g, req, r)
+    \cup (IF ~HtlcMaxAndCapacity(g, req, r)
           THEN (IF HtlcMaxButForOvershootingRaise(g, req, r)
                 THEN {"HtlcMaxAndCapacity_LastHopRaiseNotCharged"} ELSE {"HtlcMaxAndCapacity"})
           ELSE {})
